@@ -203,7 +203,8 @@ CLAIMS['C04'] = (
     'bounded exhaustive enumeration of path-component names x roles x backends, observed on disk through the real make / refninja; run-time feasibility witnesses from hand-written reference Makefiles',
     'Every name of the shapes c, xc, cx, xcy for each printable ASCII character except the separators (thorough: plus '
     'every pair of special characters in the middle) is used as source file, source directory, named output, output '
-    'sub-directory, copied file, compiled C source (object handed to the link rule), find_files directory whose results '
+    'sub-directory, copied file, compiled C source (object handed to the link rule; also with the object in the build '
+    'root), find_files directory whose results '
     'are copied, find_files directory whose results feed a plainly named step, installed data file (real doppel: '
     'install and uninstall) and header of a C file compiled by the real gcc (bfg9000-depfixer; modify, then remove '
     'header and #include), on both backends. Observed per (name, role): the step creates '
